@@ -6,6 +6,13 @@ CREATORS = ("std::fs::File::create", "cfb::create", "std::fs::OpenOptions::open"
 INMEM = ("std::io::Cursor<", "std::vec::Vec<u8>", "std::string::String", "&mut std::string::String", "zip::ZipWriter<std::io::Cursor", "quick_xml::Writer<std::io::Cursor")
 
 
+def path_operand(t):
+    """Operand that carries the path of a file-creating call (OpenOptions::open takes the builder first)."""
+    if t.get("fn") == "std::fs::OpenOptions::open":
+        return t["args"][1] if len(t["args"]) > 1 else None
+    return t["args"][0] if t["args"] else None
+
+
 def crate_reach(fb, root):
     return {d for d in fb.reachable_from([root]) if d in fb.mir}
 
@@ -44,7 +51,7 @@ def creates_at_param(fb, fn, memo):
     for bi, t in fl.calls():
         f = t.get("fn", "")
         if f in CREATORS and t["args"]:
-            out |= {a[1] for a in fl.atoms(t["args"][0]) if a[0] == "arg"}
+            out |= {a[1] for a in fl.atoms(path_operand(t)) if a[0] == "arg"}
         elif f in fb.mir:
             for p in creates_at_param(fb, f, memo):
                 if p - 1 < len(t["args"]):
@@ -116,7 +123,7 @@ def rule_temp_rename(chk, fb, eps):
         for bi, t in fl.calls():
             f = t.get("fn", "")
             if f in CREATORS and t["args"]:
-                sites.append((bi, t, t["args"][0]))
+                sites.append((bi, t, path_operand(t)))
             elif f in fb.mir:
                 for p in creates_at_param(fb, f, memo):
                     if p - 1 < len(t["args"]):
@@ -128,6 +135,12 @@ def rule_temp_rename(chk, fb, eps):
             tmp = is_tmp(fb, at, tmemo)
             chk.ob(ra, "%s:create#%d" % (d, n), tmp, where="%s:%s" % (b["file"], t["ln"]),
                    detail="file created through %s at a path %s" % (t["fn"].split("::")[-1], "derived from the temporary name" if tmp else "that is NOT a temporary name (the caller's destination is written in place)"))
+            if t.get("fn") == "std::fs::OpenOptions::open":
+                # a leftover temp file of an interrupted save must not shine through: the file is emptied (or must be new)
+                opts = {a[1].split("::")[-1] for a in fl.atoms(t["args"][0]) if a[0] == "call" and a[1].startswith("std::fs::OpenOptions::")}
+                fresh = bool(opts & {"truncate", "create_new"})
+                chk.ob(ra, "%s:create#%d:truncated" % (d, n), fresh, where="%s:%s" % (b["file"], t["ln"]),
+                       detail="temp file opened with options %s: %s" % (sorted(opts), "emptied / new" if fresh else "an existing longer file keeps its tail behind the new content"))
         # nothing but the rename touches the destination: every fs::remove_* on the save path removes the temp file
         for n, (bi, t) in enumerate(fl.calls(lambda t: t.get("fn", "").startswith("std::fs::remove_"))):
             at = fl.atoms(t["args"][0])
